@@ -54,6 +54,12 @@ def mbr(n: int, part_offset: int, part_entry: int, ptype: int, mbr_id: int, ext:
         else:
             for k in range(16):
                 ok = ok & (rec[o + k] == 0)
+    # ... and the library's own parser recovers the geometry it was given from those bytes (re-mastering an opened hybrid image pads to
+    # the same cylinder size): parse(record(x)) has x's heads, sectors, offset, entry, rba, id and type
+    hy2 = isohybrid.IsoHybrid()
+    hy2.parse(rec)
+    ok = ok & (hy2.geometry_heads == HEADS) & (hy2.geometry_sectors == SECTORS) & (hy2.part_offset == part_offset) & (hy2.part_entry == part_entry)
+    ok = ok & (hy2.rba == 4 * ext) & (hy2.mbr_id == mbr_id) & (hy2.ptype == ptype)
     return h.post(ok & (active == 1))
 
 
